@@ -67,6 +67,8 @@ fn termops(d: &mut Drv) {
             d.call("map", || m("hadd"), || o(va.hadd(vb)));
             // user fold: a non-commutative, associative function (concatenation) shows order and multiplicity
             d.call("map", || m("reduce"), || { let v: $V<Vec<i64>> = va.map(|t| t.code()); json!(v.reduce(|mut x, y| { x.extend(y); x })) });
+            // ... and an opaque closure shows the roles of its arguments: f(f(f(a1, a2), a3), a4), accumulator first
+            d.call("map", || m("reduce_f"), || tms(&[va.reduce(f2)]));
             // ---- constructors
             let k = |how: &str, input: &[Tm]| json!({"ty": $name, "n": $n, "how": how, "input": tms(input)});
             d.call("ctor_v", || k("broadcast", &[s]), || o($V::broadcast(s)));
@@ -85,6 +87,10 @@ fn termops(d: &mut Drv) {
             let long: Vec<Tm> = a.iter().cloned().chain(b.iter().cloned()).collect();
             d.call("ctor_v", || k("long", &long), || o($V::from_iter(long.iter().cloned())));
             d.call("ctor_v", || k("exact", &a), || o(va.iter().cloned().collect::<$V<Tm>>()));
+            // iterators that do not know their length (size_hint lower bound 0), with more and with fewer items
+            d.call("ctor_v", || k("exact", &a), || o(a.iter().cloned().filter(|_| true).collect::<$V<Tm>>()));
+            d.call("ctor_v", || k("long", &long), || o($V::from_iter(long.iter().cloned().filter(|_| true))));
+            d.call("ctor_v", || k("short", short), || { let mut it = short.iter().cloned(); o($V::from_iter(std::iter::from_fn(move || it.next()))) });
             d.call("ctor_v", || k("exact", &a), || o(va.into_iter().collect::<$V<Tm>>()));
         }};
     }
